@@ -422,4 +422,41 @@ brk("C03", "c03-specified-overwrites-animated", ISD, "      if isd_element.has_s
 ben("C03", "c03-benign-specified-guard-nested", ISD, "      if isd_element.has_style(spec_style_prop):\n        # skip if the style has already been set\n        continue\n\n      styles_to_be_computed.add(spec_style_prop)\n      isd_element.set_style(spec_style_prop, element.get_style(spec_style_prop))", "      if not isd_element.has_style(spec_style_prop):\n        styles_to_be_computed.add(spec_style_prop)\n        isd_element.set_style(spec_style_prop, element.get_style(spec_style_prop))")
 brk("C10", "c10-handle-data-splitlines", "ttconv/srt/reader.py", '    lines = data.split("\\n")', '    lines = data.splitlines()', "ORD-br")
 
+# ---------------------------------------------------------------------------------------- rules added after round 10
+brk("C05", "c05-color-alpha-or-default", UT, "        int(m.group(4), 16) if m.group(4) else 255\n", "        int(m.group(4) or \"ff\", 16) or 255\n", "FIN-color")
+ben("C05", "c05-benign-color-alpha-local", UT, "        int(m.group(4), 16) if m.group(4) else 255\n", "        255 if not m.group(4) else int(m.group(4), 16)\n")
+brk("C19", "c19-color-dec-prefix", UT, "  m = _DEC_COLOR_RE.fullmatch(attr_value)", "  m = _DEC_COLOR_RE.match(attr_value)", "FIN-color")
+brk("C09", "c09-text-nfc", MODEL, "      raise TypeError(\"Text must be a string\")\n    self._text = text\n", "      raise TypeError(\"Text must be a string\")\n    import unicodedata\n    self._text = unicodedata.normalize(\"NFC\", text)\n", "ID-text")
+brk("C10", "c10-text-strip", MODEL, "      raise TypeError(\"Text must be a string\")\n    self._text = text\n", "      raise TypeError(\"Text must be a string\")\n    self._text = text.strip(\"\\u200e\")\n", "ID-text")
+ben("C10", "c10-benign-text-local", MODEL, "      raise TypeError(\"Text must be a string\")\n    self._text = text\n", "      raise TypeError(\"Text must be a string\")\n    value = text\n    self._text = value\n")
+brk("C01", "c01-display-validate-by-value", SPY, "      return isinstance(value, DisplayType) \n", "      return value in [m.value for m in DisplayType] or isinstance(value, DisplayType)\n", "VAL-strict")
+brk("C13", "c13-length-units-any", SPY, "    if not isinstance(self.units, LengthType.Units):\n      raise ValueError(\"Invalid units\")\n", "    if self.units is None:\n      raise ValueError(\"Invalid units\")\n", "VAL-strict")
+ben("C13", "c13-benign-length-units-type", SPY, "    if not isinstance(self.units, LengthType.Units):\n      raise ValueError(\"Invalid units\")\n", "    units_ok = isinstance(self.units, LengthType.Units)\n    if not units_ok:\n      raise ValueError(\"Invalid units\")\n")
+brk("C02", "c02-copy-end-truthy", MODEL, "    dest.set_begin(self.get_begin())\n    dest.set_end(self.get_end())\n    dest.set_id(self.get_id())", "    dest.set_begin(self.get_begin())\n    if self.get_end():\n      dest.set_end(self.get_end())\n    dest.set_id(self.get_id())", "LINT-n")
+ben("C02", "c02-benign-copy-end-not-none", MODEL, "    dest.set_begin(self.get_begin())\n    dest.set_end(self.get_end())\n    dest.set_id(self.get_id())", "    dest.set_begin(self.get_begin())\n    if self.get_end() is not None:\n      dest.set_end(self.get_end())\n    else:\n      dest.set_end(None)\n    dest.set_id(self.get_id())")
+brk("C03", "c03-chained-first-wins", ELS, "        style_ref = style_element.style_refs.pop()\n", "        style_ref = style_element.style_refs.pop(0)\n", "FIN-chain")
+brk("C04", "c04-rtc-needs-four", MODEL, "    if len(cs) > 2 and isinstance(cs[0], Rp) and isinstance(cs[-1], Rp):", "    if len(cs) > 3 and isinstance(cs[0], Rp) and isinstance(cs[-1], Rp):", "FIN-rubykids")
+ben("C04", "c04-benign-rtc-ge-three", MODEL, "    if len(cs) > 2 and isinstance(cs[0], Rp) and isinstance(cs[-1], Rp):", "    if len(cs) >= 3 and isinstance(cs[-1], Rp) and isinstance(cs[0], Rp):")
+brk("C07", "c07-merge-skips-single-div", "ttconv/filters/isd/merge_paragraphs.py", "        if len(paragraphs) <= 1:\n          continue\n", "        if len(paragraphs) <= 1 or len(original_divs) == 1 and len(original_divs[0]) <= 1:\n          continue\n", "FIN-merge")
+brk("C06", "c06-merge-br-after-last", "ttconv/filters/isd/merge_paragraphs.py", "          if index < len(paragraphs) - 1:\n", "          if index < len(paragraphs):\n", "FIN-merge")
+brk("C13", "c13-prune-only-when-lwsp", ISD, "        _process_lwsp(text_node_list)\n        _prune_empty_spans(isd_element)\n", "        _process_lwsp(text_node_list)\n        if text_node_list:\n          _prune_empty_spans(isd_element)\n", "FIN-lwsp")
+brk("C11", "c11-cref-no-hash", "ttconv/vtt/tokenizer.py", "      elif state is _State.data_cref:\n        if c == ord(\";\"):", "      elif state is _State.data_cref:\n        if c == ord(\"#\"):\n          result.extend(buffer)\n          result.append(\"#\")\n          state = _State.data\n        elif c == ord(\";\"):", "FIN-tokens")
+brk("C14", "c14-from-model-after-last-time", ISD, "    isd = ISD(doc)\n\n    cache = (_SingleRegionDocumentCache({}, doc, None),) if sig_times is None else sig_times.cache()\n", "    isd = ISD(doc)\n\n    if sig_times is not None and len(sig_times) > 0 and offset > sig_times[-1]:\n      return isd\n\n    cache = (_SingleRegionDocumentCache({}, doc, None),) if sig_times is None else sig_times.cache()\n", "FIN-cacheskip")
+brk("C01", "c01-sigtimes-skip-hidden-region", ISD, "      for region in doc.iter_regions():\n        single_regions_docs.append(_clone_doc_with_one_region(doc, region.get_id()))", "      for region in doc.iter_regions():\n        if region.get_style(styles.StyleProperties.Display) is styles.DisplayType.none:\n          continue\n        single_regions_docs.append(_clone_doc_with_one_region(doc, region.get_id()))", "COVER-regions")
+brk("C18", "c18-prune-childless-early", ISD, "    # create an ISD element\n", "    if not element.has_children() and not isinstance(element, (model.Region, model.Br, model.Text)):\n      return None\n\n    # create an ISD element\n", "PRUNE-sites")
+ben("C18", "c18-benign-prune-childless-span-early", ISD, "    # create an ISD element\n", "    if not element.has_children() and isinstance(element, (model.Span, model.P, model.Div, model.Body)):\n      return None\n\n    # create an ISD element\n")
+brk("C03", "c03-position-right-edge-from-container", ISD, "          value=100 - extent.width.value - h_offset.value,\n", "          value=100 - h_offset.value,\n", "FIN-position")
+ben("C03", "c03-benign-position-right-edge-regrouped", ISD, "          value=100 - extent.width.value - h_offset.value,\n", "          value=(100 - extent.width.value) - h_offset.value,\n")
+brk("C16", "c16-position-reads-origin", ISD, "      extent : styles.ExtentType = element.get_style(styles.StyleProperties.Extent)\n\n      assert extent.height.units", "      extent : styles.ExtentType = element.get_style(styles.StyleProperties.Extent)\n      old_origin = element.get_style(styles.StyleProperties.Origin)\n      if old_origin.x is None:\n        return\n\n      assert extent.height.units", "ORD-compute")
+brk("C10", "c10-parser-not-closed", SRTR, "        parser = _TextParser(current_p, line_index)\n        parser.feed(subtitle_text)\n        parser.close()\n", "        _TextParser(current_p, line_index).feed(subtitle_text)\n", "PAIR-close")
+brk2("C08", "c08-control-field2-has-channel", CC + "control_codes.py", [("from ttconv.scc.codes import SccCode\n", "from ttconv.scc.codes import SccCode, SccChannel\n"), ("  def get_values(self) -> Tuple[int, int, int, int]:", "  def get_channel(self, value: int):\n    if value in (self._channel_1, self._channel_1_field_2):\n      return SccChannel.CHANNEL_1\n    if value in (self._channel_2, self._channel_2_field_2):\n      return SccChannel.CHANNEL_2\n    return None\n\n  def get_values(self) -> Tuple[int, int, int, int]:")], "FIN-channel")
+brk("C17", "c17-line-skips-channel-2-only", SL, "        if caption_channel is not SccChannel.CHANNEL_1:", "        if caption_channel is SccChannel.CHANNEL_2:", "ORD-channel")
+
+ben("C04", "c04-benign-parse-length-memo", IU, "def parse_length(attr_value: str) -> typing.Tuple[float, str]:\n  \'\'\'Parses the TTML length in `attr_value` into a (length, units) tuple\'\'\'\n\n  m = _LENGTH_RE.match(attr_value)\n\n  if m:\n\n    return (float(m.group(1)), m.group(2))\n",
+    "_LENGTH_MEMO = {}\n\ndef parse_length(attr_value: str) -> typing.Tuple[float, str]:\n  \'\'\'Parses the TTML length in `attr_value` into a (length, units) tuple\'\'\'\n\n  if type(attr_value) is str and attr_value in _LENGTH_MEMO:\n    return _LENGTH_MEMO[attr_value]\n\n  m = _LENGTH_RE.match(attr_value)\n\n  if m:\n\n    rslt = (float(m.group(1)), m.group(2))\n    if type(attr_value) is str:\n      _LENGTH_MEMO[attr_value] = rslt\n    return rslt\n")
+brk("C05", "c05-time-format-memo-without-rate", IA, "def to_time_format(context: TemporalAttributeWritingContext, time: Fraction) -> str:\n  if context.time_expression_syntax is TimeExpressionSyntaxEnum.clock_time or context.frame_rate is None:\n    return str(ClockTime.from_seconds(time))\n",
+    "_TIME_MEMO = {}\n\ndef to_time_format(context: TemporalAttributeWritingContext, time: Fraction) -> str:\n  key = (context.time_expression_syntax, time)\n  if key not in _TIME_MEMO:\n    _TIME_MEMO[key] = _to_time_format(context, time)\n  return _TIME_MEMO[key]\n\ndef _to_time_format(context: TemporalAttributeWritingContext, time: Fraction) -> str:\n  if context.time_expression_syntax is TimeExpressionSyntaxEnum.clock_time or context.frame_rate is None:\n    return str(ClockTime.from_seconds(time))\n", "STATE-alias")
+ben("C05", "c05-benign-time-format-memo-with-rate", IA, "def to_time_format(context: TemporalAttributeWritingContext, time: Fraction) -> str:\n  if context.time_expression_syntax is TimeExpressionSyntaxEnum.clock_time or context.frame_rate is None:\n    return str(ClockTime.from_seconds(time))\n",
+    "_TIME_MEMO = {}\n\ndef to_time_format(context: TemporalAttributeWritingContext, time: Fraction) -> str:\n  key = (context.time_expression_syntax, context.frame_rate, time)\n  if key not in _TIME_MEMO:\n    _TIME_MEMO[key] = _to_time_format(context, time)\n  return _TIME_MEMO[key]\n\ndef _to_time_format(context: TemporalAttributeWritingContext, time: Fraction) -> str:\n  if context.time_expression_syntax is TimeExpressionSyntaxEnum.clock_time or context.frame_rate is None:\n    return str(ClockTime.from_seconds(time))\n")
+
 VARIANTS = V
